@@ -268,6 +268,8 @@ def cand_part(name, s, i):
         for e in range(j, i, -1):
             if s[i] != "0":
                 yield e
+        if name == "BLD" and j > i and s[i] == "0":
+            yield i + 1      # a BUILD of zero is written as `0` (accepted since the repair 4282b57)
     elif name == "TAG":
         for t in TAG_WORDS:
             if s.startswith(t, i):
